@@ -8,6 +8,7 @@ CONSTANTS
   FixD12 = TRUE
   FixD17 = TRUE
   FixD18 = TRUE
+  FixD20 = TRUE
 INVARIANT TypeOK
 INVARIANT C04_OnlySnapshotOnce
 INVARIANT C04_InQueueOrder
